@@ -208,6 +208,18 @@ let register (reg : string -> (Sx.t list -> Sx.t) -> unit) : unit =
             | v -> raise (Bad ("bad rreq " ^ to_string v))) in
         wr_str (Redirect.oauth_redirect_uri (rd_bool rel) (rd_str cu) (rd_bool ch) (rd_str cp) (rd_bool sec) q)
       | _ -> raise (Bad "oauth_redirect_uri arity"));
+  (* SignOut over the ticket store *)
+  reg "sign_out_ticket" (function
+      | [macs; cfg; host; cookies; now0; now1; del_ok] ->
+        let m = table_fun (rd_table macs) in
+        let f now = SignOut.sign_out_ticket_store m (rd_ccfg cfg) (rd_str host) (rd_cookies cookies) (rd_z now) (rd_bool del_ok) (str_of_string "/") in
+        let a = f now0 and b = f now1 in
+        if a <> b then Y "ambiguous" else
+          let (o, key) = a in
+          (match o with
+           | SignOut.SoRedirect (_, cs) -> L [wr_bool true; wr_opt wr_str key; wr_headers cs]
+           | SignOut.SoError cs -> L [wr_bool false; wr_opt wr_str key; wr_headers cs])
+      | _ -> raise (Bad "sign_out_ticket arity"));
   reg "split_host_port" (function
       | [x] -> wr_opt (wr_pair wr_str wr_str) (NetAddr.split_host_port (rd_str x))
       | _ -> raise (Bad "split_host_port arity"));
